@@ -84,6 +84,8 @@ def slice(ctx: fw.Ctx) -> fw.Outcome:
     lc.run(ctx, out, cases)
     classes_table(ctx, out)
     sections(ctx, out)
+    from .. import direct
+    direct.run(ctx, out, 'instrument', gen.Profile(max_tracks=2, max_events=0, unknown_sections=0.0, meta_fields=0.0, exotic_pad=0.2, exotic_digits=0.1))  # every way of handing the section's lines over decodes the same
     return out
 
 
@@ -108,7 +110,7 @@ def sections(ctx, out):
             elif kind == "sp":
                 line = f"  {t} = S 2 {rng.randint(0, 500)}"
             else:
-                line = f"  {t} = E {rng.choice(['solo', 'a\tb', 'x=y', 'soloend'])}"
+                line = f"  {t} = E {rng.choice(['solo', 'a\tb', 'x=y', 'soloend'] + [w for w in gen.WORDS if ' ' not in w])}"
             twin = rng.choice([line.replace(" N ", " N  ", 1), line.replace(" S 2 ", " S 2  ", 1), line.replace("\t", " "), line.replace(" = ", "  = ", 1),
                                line.replace(" = ", " =  ", 1), line.replace(" N ", " N 0", 1), line + " x", lc.mutate(rng, line)])
             pair = [line, twin] if rng.random() < 0.5 else [twin, line]
@@ -148,6 +150,9 @@ def sections(ctx, out):
 
 
 def replay(ctx, data):
+    if data.get("op") == "direct-section":
+        from .. import direct
+        return direct.replay(data)
     if data["op"] == "line":
         return lc.replay(data)
     if data["op"] == "chart" and data.get("section"):
